@@ -162,11 +162,22 @@ func (p cfgPath) Has(cfg *Config, opt *options) (bool, Error) {
 }
 
 func (p cfgPath) GetValue(cfg *Config, opt *options) (value, Error) {
+	return p.getValue(cfg, opt, false)
+}
+
+// getValue finds the setting p names below cfg. With keepRefs the references
+// the path leads through stay active (cycle detection) when getValue returns:
+// the caller is going to unpack the setting found and restores
+// opt.activeFields when it is done, like derefConfig's callers do.
+func (p cfgPath) getValue(cfg *Config, opt *options, keepRefs bool) (value, Error) {
 	fields := p.fields
 
 	cur := value(cfgSub{cfg})
 	for ; len(fields) > 1; fields = fields[1:] {
 		field := fields[0]
+		if keepRefs {
+			cur, _ = derefConfig(opt, cur)
+		}
 		next, err := field.GetValue(opt, cur)
 		if err != nil {
 			return nil, err
@@ -184,6 +195,9 @@ func (p cfgPath) GetValue(cfg *Config, opt *options) (value, Error) {
 	}
 
 	field := fields[0]
+	if keepRefs {
+		cur, _ = derefConfig(opt, cur)
+	}
 	v, err := field.GetValue(opt, cur)
 	if err != nil {
 		if causedByCycle(err) {
